@@ -15,8 +15,8 @@ From Tele Require Import Lib.Bytes Lib.Calendar Lib.SortedMap Model.Bucket
 Import ListNotations.
 Open Scope N_scope.
 
-(* Refinement, all histories: every sequence of writes, overwrites, reads and
-   prefix listings on the tree gives exactly the results of the association
+(* Refinement, all histories: every sequence of writes, overwrites, reads,
+   copies and prefix listings on the tree gives exactly the results of the association
    list (non-strict variant = with the one deviation of the code, in listings,
    spelled out), and the regular files of the final tree are that list. A write that
    fails leaves the list unchanged (spec_write) -- and the tree, see
@@ -106,7 +106,7 @@ Print Assumptions C18_list_member.
 (* buckets that only ever received names with UTF-8 directory components
    (all names the services build, see below) list exactly *)
 Theorem C18_walkable_list_exact : forall ops pre,
-  (forall n c, In (OWrite n c) ops -> walkable (components n) = true) ->
+  (forall o n, In o ops -> writes_to o = Some n -> walkable (components n) = true) ->
   let m := snd (run_fs fs_init ops) in
   list_names m pre = filter (fun n => has_prefix n pre) (map (fun kv => join_path (fst kv)) (files m)).
 Proof. exact walkable_list_exact. Qed.
@@ -117,6 +117,36 @@ Theorem C18_list_exact_refuted :
   fst (run_fs fs_init ops_list_nonutf8) = [RW true; RL []].
 Proof. exact list_exact_refuted. Qed.
 Print Assumptions C18_list_exact_refuted.
+
+(* storage.Copy inside a bucket (histories with copies are covered by
+   C18_refinement: OCopy is an operation).  Between different names it is
+   write(dst, read(src)); afterwards destination and source both read as the
+   source did, every other object reads as before, and the result is again a
+   reachable tree, so that a later overwrite of either name leaves the other
+   one alone (C18_write_frame): the two objects share nothing. *)
+Theorem C18_copy_is_write_of_read : forall m d sr, reachable m -> components d <> components sr ->
+  copy m (components d) (components sr) =
+    match read m (components sr) with
+    | ROk c => write m (components d) c
+    | _ => (false, m)
+    end.
+Proof. exact copy_is_write_of_read. Qed.
+Print Assumptions C18_copy_is_write_of_read.
+Theorem C18_copy_read : forall m d sr m', reachable m -> components d <> components sr ->
+  copy m (components d) (components sr) = (true, m') ->
+  reachable m' /\
+  exists c, read m (components sr) = ROk c /\ read m' (components d) = ROk c /\ read m' (components sr) = ROk c /\
+  forall n c2, components n <> components d ->
+    (read m' (components n) = ROk c2 <-> read m (components n) = ROk c2).
+Proof. exact copy_read. Qed.
+Print Assumptions C18_copy_read.
+(* copying an object onto itself keeps its content and the whole tree (fix
+   11cc580); an absent object cannot be copied onto itself either *)
+Theorem C18_copy_self_keeps_content : forall m o, reachable m ->
+  (forall c, read m (components o) = ROk c -> copy m (components o) (components o) = (true, m)) /\
+  (sget (components o) (files m) = None -> copy m (components o) (components o) = (false, m)).
+Proof. exact copy_self_keeps_content. Qed.
+Print Assumptions C18_copy_self_keeps_content.
 
 (* confinement: a name of ordinary components resolves (filepath.Join with
    lexical cleaning) to exactly its components below the bucket directory *)
@@ -144,6 +174,10 @@ Proof. exact chart_name_good. Qed.
 Print Assumptions C18_service_names_inside_chart.
 
 (* Non-vacuity *)
+Example C18_example_copy_self :
+  forallb op_ok ops_copy_self = true /\
+  fst (run_fs fs_init ops_copy_self) = [RW true; RC true; RR (ROk [1; 2; 3]); RC false].
+Proof. exact copy_self_example. Qed.
 Example C18_example_read_colliding :
   forallb op_ok ops_read_dir = true /\
   fst (run_fs fs_init ops_read_dir) = [RW true; RR RNotExist; RW true; RR RNotExist].
